@@ -334,6 +334,22 @@ def step (d : Drv) (cmd : List Sexp) : Drv × String :=
         let d := if d.f04.contains ln || d.f04.contains rn then { d with f04 := n :: d.f04 } else d
         (d.setDirect n dv).report n (if res.isSame then "same" else "new") (.ok (res.get l))
     | _, _, _, _ => (d, "bad-ref")
+  -- (joinpl rN rT rF PRED (opts ...)): Join(pred).partial(rF, is_lhs=True).apply(rT, ...) - the fixed relation on the left
+  | [atom "joinpl", atom n, atom tn, atom fn, px, ox] =>
+    match d.rel? tn, d.rel? fn, decPred d.env px, decOpts d ox with
+    | some t, some f, some p, some o =>
+      match t.joinOptsL d.store f p o with
+      | .error e => (d, errLine e)
+      | .ok res =>
+        let dv : Option (Cols × List Row × Bool) :=
+          match d.direct? fn, d.direct? tn with
+          | some (lc, lr, lk), some (rc, rr, rk) =>
+            let common := Cols.keys (Cols.inter lc rc)
+            some (lc.union rc, joinRows common p lr rr, lk && rk)
+          | _, _ => none
+        let d := if d.f04.contains tn || d.f04.contains fn then { d with f04 := n :: d.f04 } else d
+        (d.setDirect n dv).report n (if res.isSame then "same" else "new") (.ok (res.get t))
+    | _, _, _, _ => (d, "bad-ref")
   -- (joinmax rN rL rR (COLS) PRED (opts ...)): Join(pred, max_columns=COLS).partial(rR).apply(rL, ...)
   | [atom "joinmax", atom n, atom ln, atom rn, list cs, px, ox] =>
     match d.rel? ln, d.rel? rn, decCols d.env cs, decPred d.env px, decOpts d ox with
@@ -404,6 +420,29 @@ def step (d : Drv) (cmd : List Sexp) : Drv × String :=
       | .ok res =>
         let d := if d.f04.contains tn then { d with f04 := n :: d.f04 } else d
         (d.setDirect n (d.direct? tn)).report n (if res.isSame then "same" else "new") (.ok (res.get t))
+    | _, _ => (d, "bad-ref")
+  -- (transferp rN rT E): E.transfer(rT, payload=<the rows of rT>), E an iteration engine: `EngineError` when the
+  -- (simplified) target already lives in E, otherwise a new Transfer that holds the payload
+  | [atom "transferp", atom n, atom tn, atom en] =>
+    match d.rel? tn, d.eng? en with
+    | some t, some e =>
+      let t1 := (transferSimplify e t).getD t
+      if t1.engine == e then (d, errLine .engine)
+      else if e.kind != .iter then (d, "bad-op")
+      else
+        match t.transferredTo d.store e with
+        | .error er => (d, errLine er)
+        | .ok res =>
+          let d := if d.f04.contains tn then { d with f04 := n :: d.f04 } else d
+          let (d, line) := (d.setDirect n (d.direct? tn)).report n (if res.isSame then "same" else "new") (.ok (res.get t))
+          match d.rel? n with
+          | some r =>
+            (match attachTarget d.hasPay r with
+             | .error er => (d, errLine er)
+             | .ok oid =>
+               let d2 := { d with st := { d.st with payloads := (oid, .seq (rowsOf d r)) :: d.st.payloads } }
+               (d2, s!"ok new {d2.showRel r}"))
+          | none => (d, line)
     | _, _ => (d, "bad-ref")
   -- (fmt PREFIX COUNTER HEX): the generated relation name for these ingredients
   | [atom "fmt", atom pfx, atom c, atom hex] =>
